@@ -457,8 +457,18 @@ def gen_program(seed, family=None, tight=True, T=None, on_grid=True, with_main=T
                 c_late = b.country(m, 'ZZ', currency=cur0)
                 b.sector('Sector', c_late, 'OBS', has_F=True)
         if family == 'multi_currency_supply':
+            swap = S['swarm'].random() < 0.3
             for i, e in enumerate(info['economies']):
                 other = info['economies'][(i + 1) % n]
+                if swap and i == 0:
+                    # the residual supplier of this goods market is the *foreign* business; the domestic one supplies a
+                    # fixed share of demand
+                    share = round(prm.uniform(0.3, 0.8), 2)
+                    b.add({'op': 'AddSupplier', 'market': e['good'], 'supplier': e['bus'],
+                           'eqn': '%s*DEM_%s' % (repr(share), e['names'].get('GOOD', 'GOOD'))})
+                    b.add({'op': 'AddSupplier', 'market': e['good'], 'supplier': other['bus'], 'eqn': None})
+                    b.add({'op': 'AddMarket', 'business': other['bus'], 'market': e['good']})
+                    continue
                 if rng.random() < 0.85:
                     mu = round(prm.uniform(0.05, 0.25), 3)
                     code = e['names']['code']
@@ -476,6 +486,17 @@ def gen_program(seed, family=None, tight=True, T=None, on_grid=True, with_main=T
             b.ops.insert(S['swarm'].randint(first_sector[0] + 1, len(b.ops)), {'op': 'LogInfo', 'model': m})
     if S['swarm'].random() < 0.15:
         insert_queries(b.ops, S['swarm'], m)
+    if S['swarm'].random() < 0.06:
+        # a bystander: another Model object comes into existence while this one is being built ("two Model objects may
+        # coexist; there is no interaction between them"); sometimes it gets a country and a sector of its own
+        first_sector = [i for i, o in enumerate(b.ops) if 'country' in o and 'id' in o and o['op'] not in ('Country', 'Region', 'GetSector')]
+        if first_sector:
+            at = S['swarm'].randint(first_sector[0] + 1, len(b.ops))
+            extra = [{'op': 'Model', 'id': 'm_by'}]
+            if S['swarm'].random() < 0.5:
+                extra += [{'op': 'Country', 'id': 'c_by', 'model': 'm_by', 'code': 'BY', 'currency': None},
+                          {'op': 'Sector', 'id': 's_by', 'country': 'c_by', 'code': 'DUMMY', 'has_F': True}]
+            b.ops[at:at] = extra
     knobs_ops(b, S['knobs'], m, T, tight=tight)
     if with_main:
         mo = {'op': 'main', 'model': m}
